@@ -1,3 +1,4 @@
+mod allocs;
 mod api;
 mod arith;
 mod gen;
@@ -11,6 +12,9 @@ use run::*;
 use sched::*;
 use std::collections::{BTreeMap, HashMap};
 use std::io::Write;
+
+#[global_allocator]
+static GLOBAL: allocs::Counting = allocs::Counting;
 
 fn parse_ops(s: &str) -> Vec<Op> {
     // split on ';' at bracket depth 0
@@ -192,7 +196,7 @@ fn explore(args: &[String]) {
             2 => Strategy::Pct { d: 1 },
             3 => Strategy::Pct { d: 2 },
             4 => Strategy::Pct { d: 3 },
-            _ => Strategy::Stall { victim: 1 + rng.below(3), at: rng.below(40) },
+            _ => Strategy::Stall { victim: rng.below(4), at: rng.below(120) },
         };
         let sname = match &strat {
             Strategy::Random => "random".to_string(),
@@ -292,6 +296,7 @@ fn main() {
         "explore" => explore(&args),
         "replay" => replay(&args),
         "arith" => arith::main(&args),
+        "alloc" => allocs::main(&args),
         "seq" => seq::main(&args),
         _ => println!("usage: mqharness explore|replay ..."),
     }
